@@ -46,6 +46,7 @@ type VerifState struct {
 	Opt      uint16
 	Enc      [][]string
 	EncNil   bool
+	EncSpare int // cap-len of the encapsulation list: two lists of equal content but different spare room have different futures (append may or may not reallocate)
 	Err      error
 	AuxAddr  uintptr
 	AuxLen   int
@@ -96,6 +97,7 @@ func (s *VerifState) fillCfg(c *nodeConfig) {
 	s.CfgAddr = uintptr(unsafe.Pointer(c))
 	s.ID, s.Cat, s.Cap, s.Opt = c.id, c.cat, c.cap, uint16(c.opt)
 	s.EncNil = c.enc == nil
+	s.EncSpare = cap(c.enc) - len(c.enc)
 	for _, e := range c.enc {
 		s.Enc = append(s.Enc, append([]string{}, e...))
 	}
@@ -256,7 +258,7 @@ func (s *VerifState) key(b *strings.Builder, addrs bool) {
 	if addrs {
 		fmt.Fprintf(b, "@%x cfg@%x ", s.Addr, s.CfgAddr)
 	}
-	fmt.Fprintf(b, "cfgok=%v id=%q cat=%q cap=%d opt=%d enc=%q encnil=%v err=", s.CfgOK, s.ID, s.Cat, s.Cap, s.Opt, s.Enc, s.EncNil && addrs)
+	fmt.Fprintf(b, "cfgok=%v id=%q cat=%q cap=%d opt=%d enc=%q encnil=%v encspare=%d err=", s.CfgOK, s.ID, s.Cat, s.Cap, s.Opt, s.Enc, s.EncNil && addrs, s.EncSpare)
 	if s.Err == nil {
 		b.WriteString("nil")
 	} else if addrs {
